@@ -452,7 +452,7 @@ func ruleGuardedReads(r *Report) {
 	guarded := map[string]bool{"(*column.numericColumn[T]).load": true, "(*column.columnString).LoadString": true, "(*column.columnEnum).LoadString": true,
 		"(*column.columnBool).Contains": true, "(*column.columnBool).Value": true, "(*column.columnIndex).Value": true, "(*column.columnIndex).Contains": true}
 	for _, rc := range L.Roots {
-		n := rc.Root
+		n := fnName(rc.Fn)
 		if !(strings.HasPrefix(n, "(column.Row).") || strings.HasSuffix(n, ").Get")) {
 			continue
 		}
